@@ -91,6 +91,8 @@ def FLOORS(tier):
         'setter_clamped_to_less_than_one': 1 if q else 8,
         'biglist_variants': 2 if q else 4,
         'biglist_resumes': 1 if q else 6,
+        # driven through step() (not run()) with two or more intermediate-producing steps of one kind (GVCF / dataset) in one process
+        'stepped_runs_with_2+_intermediate_steps_of_one_kind': 1000 if q else 10000,
     }
 
 
@@ -550,6 +552,41 @@ class Harness:
             if G > comb._gvcf_batch_size * comb._branch_factor:
                 self.ctx.count('gvcf_steps_over_task_limit_not_last')
 
+    def queue_check(self, comb, w):
+        """after a step: -> None, or (status, text, detail) when (a) two queue entries share one path = the later step wrote its output over a
+        dataset that was still queued ("each input used once" is lost from here on), or (b) a queued intermediate holds far more columns than
+        the run has inputs (provenance doubling; the run is abandoned there instead of growing exponentially)"""
+        seen, dup = set(), None
+        n_exp = sum(self.expected.values())
+        for md_list in comb._vdses.values():
+            for md in md_list:
+                if md.path in seen and dup is None:
+                    dup = md.path
+                seen.add(md.path)
+        if dup is not None:
+            over = [p for p, _ in w.fs.overwritten if p.startswith(dup)]
+            lost = sorted({a[1] for p, cols in w.fs.overwritten if p.startswith(dup) for a in cols})
+            return ('overwritten', f'two queue entries share the path {dup}: a later step wrote its output over an intermediate that was still queued',
+                    {'path': dup, 'overwritten_writes': over[:4], 'inputs_in_the_destroyed_dataset': lost[:8], 'job_id': comb._job_id})
+        for path in seen:
+            rec = w.fs.mts.get(os.path.join(path, 'reference_data'))
+            if rec is not None and len(rec.cols) > 2 * n_exp + 8:
+                return ('blowup', f'the queued intermediate {path} holds {len(rec.cols)} columns, the run has {n_exp} inputs', {'path': path})
+        return None
+
+    def report_queue(self, problems, how, extra):
+        for kind, text, detail in problems:
+            key = 'merge/intermediate-overwritten-while-queued' if kind == 'overwritten' else 'merge/input-duplicated'
+            self.report([(key, f'{how}: {text}', detail)], extra)
+
+    def note_kind(self, tally, was_gvcf, comb):
+        """observation: driven through step() (not run()), how many intermediate-producing steps of one kind in one process"""
+        if not comb.finished:
+            k = 'gvcf' if was_gvcf else 'vds'
+            tally[k] = tally.get(k, 0) + 1
+            if tally[k] == 2:
+                self.ctx.count('stepped_runs_with_2+_intermediate_steps_of_one_kind')
+
     # ---- driving ------------------------------------------------------------------------
     def finish(self, comb, w, how, saving=True):
         """continue `comb` to the end as run() does (save, step, ...); -> (status, steps)"""
@@ -557,6 +594,8 @@ class Harness:
 
         bound = step_bound(comb)
         steps = 0
+        tally = {}
+        self.queue_problems = []
         try:
             while not comb.finished:
                 if steps >= bound:
@@ -570,6 +609,14 @@ class Harness:
                     return (f'stalled:{before[0]} GVCFs and {before[1]} datasets queued before and after the step', steps + 1)
                 steps += 1
                 self.ctx.count('steps')
+                self.note_kind(tally, bool(before[0]), comb)
+                q = self.queue_check(comb, w)
+                if q is not None:
+                    if q[0] == 'blowup':
+                        self.queue_problems.append(q)
+                        return ('blowup', steps)
+                    if not self.queue_problems:
+                        self.queue_problems.append(q)   # reported by the caller; the run goes on to the final dataset
             if saving is True:
                 comb.save()
         except FatalError as e:
@@ -629,6 +676,9 @@ class Harness:
 
     def continue_and_judge(self, comb, w, how, extra, allow_partial=False, saving=True):
         status, steps = self.finish(comb, w, how, saving)
+        self.report_queue(self.queue_problems, how, extra)
+        if status == 'blowup':
+            return status
         if status == 'bound':
             self.report([('termination/step-bound-exceeded', f'{how}: not finished after {steps} steps (bound from remaining work)', {})], extra)
             return status
@@ -704,6 +754,7 @@ def plan_case(ctx, case, rgs, types_, rng):
         k = 0
         modes = ['load', 'load_combiner'] + (['new_combiner'] if case.via_new else [])
         fp_old = None
+        tally, queue_reported = {}, False
         while True:
             # ---- boundary k: faults inside save(), then the real save, then resume from the snapshot
             fin = comb.finished
@@ -780,6 +831,7 @@ def plan_case(ctx, case, rgs, types_, rng):
                 H.report([('termination/step-bound-exceeded', f'uninterrupted run not finished after {k} steps (bound {bound})', {})], {'bound': bound})
                 break
             H.note_step(comb)
+            was_gvcf = bool(comb._gvcfs)
             try:
                 comb.step()
             except FatalError as e:
@@ -787,6 +839,13 @@ def plan_case(ctx, case, rgs, types_, rng):
                 break
             k += 1
             ctx.count('steps')
+            H.note_kind(tally, was_gvcf, comb)
+            q = H.queue_check(comb, w)
+            if q is not None and (q[0] == 'blowup' or not queue_reported):
+                queue_reported = True
+                H.report_queue([q], f'uninterrupted run, step {k}', {'boundary': k})
+                if q[0] == 'blowup':
+                    break
         if comb.finished:
             ctx.count('final_datasets_checked')
             H.report(H.judge_output(w, 'uninterrupted run'), {'steps': k})
@@ -942,6 +1001,7 @@ def limit_case(ctx, case, rgs, types_, rng):
         rot = ['load', 'load_combiner'] + (['new_combiner'] if case.via_new else [])
         r0 = rng.randrange(3)
         later = 0
+        tally, queue_reported = {}, False
         while True:
             fin = comb.finished
             if k in case.setter:
@@ -1003,6 +1063,13 @@ def limit_case(ctx, case, rgs, types_, rng):
                 break
             k += 1
             ctx.count('steps')
+            H.note_kind(tally, bool(G), comb)
+            q = H.queue_check(comb, w)
+            if q is not None and (q[0] == 'blowup' or not queue_reported):
+                queue_reported = True
+                H.report_queue([q], f'uninterrupted run, step {k}', {'boundary': k})
+                if q[0] == 'blowup':
+                    break
             if (len(comb._gvcfs), comb._num_vdses) == before:
                 # the step took nothing: the next one starts from the same queues, run() never ends
                 H.report([('termination/step-makes-no-progress', f'step {k} consumed nothing: {before[0]} GVCFs and {before[1]} datasets queued before and after it '
@@ -1022,6 +1089,31 @@ def limit_case(ctx, case, rgs, types_, rng):
                                        c.external, c.interval_mode, c.via_new, k), nontrivial=k >= 1)
 
 
+class StepBoundExceeded(BaseException):
+    """raised out of the real run() by the counting wrapper around step() (BaseException: no handler of the code under test eats it)"""
+
+
+@contextlib.contextmanager
+def bounded_run(vdc):
+    """run() is the code under test's own loop: its number of step() calls is bounded from the inputs like every other driving loop"""
+    cls = vdc.VariantDatasetCombiner
+    orig = cls.step
+    state = {}
+
+    def step(self):
+        st = state.setdefault(id(self), [0, step_bound(self), self])
+        st[0] += 1
+        if st[0] > st[1]:
+            raise StepBoundExceeded(f'run() called step() {st[0]} times, bound {st[1]} from the work queued at its first step')
+        return orig(self)
+
+    cls.step = step
+    try:
+        yield
+    finally:
+        cls.step = orig
+
+
 def runcrash_case(ctx, case, rgs, types_, rng):
     """the real run() killed at operation n, for every n (or a sample), then resumed"""
     from vf.sim.fake_hl import CrashInjected
@@ -1037,7 +1129,13 @@ def runcrash_case(ctx, case, rgs, types_, rng):
     with w.install() as vdc, contextlib.redirect_stdout(sink):
         comb = H.construct(vdc)
         n_construct = w.fs.n_ops
-        comb.run()
+        try:
+            with bounded_run(vdc):
+                comb.run()
+        except StepBoundExceeded as e:
+            H.report([('termination/step-bound-exceeded', f'run(): {e}', {})], {})
+            ctx.case(sample=H.describe(), key=('runcrash-unbounded', len(case.gvcfs), case.bf, case.batch), nontrivial=True)
+            return
         total = w.fs.n_ops
         ctx.count('final_datasets_checked')
         H.report(H.judge_output(w, 'run()'), {})
@@ -1054,8 +1152,12 @@ def runcrash_case(ctx, case, rgs, types_, rng):
             comb = H.construct(vdc)
             w.fs.crash_at = n
             try:
-                comb.run()
+                with bounded_run(vdc):
+                    comb.run()
                 ctx.inconclusive_because('crash point not reached in a deterministic re-run')
+                continue
+            except StepBoundExceeded as e:
+                H.report([('termination/step-bound-exceeded', f'run() with a crash planned at operation {n}: {e}', {})], {})
                 continue
             except CrashInjected as e:
                 where = str(e)
